@@ -25,6 +25,11 @@ func ParseRequests(msg []byte) ([]*ParsedRequest, error) {
 			Params: req.P,
 			Error:  req.err,
 		}
+		if req.err == nil && req.M == "" {
+			// A member with no method (absent, empty, or a reply) is not a
+			// request; a server rejects it the same way.
+			out[i].Error = errEmptyMethod
+		}
 	}
 	return out, err
 }
